@@ -59,7 +59,9 @@ func (rl *RangeLoop) SetVal(val any, ins inspector.Inspector) {
 func (rl *RangeLoop) Iterate() inspector.LoopCtl {
 	rl.c++
 	if rl.cntr > 0 && len(rl.node.loopSep) > 0 {
-		_, _ = rl.w.Write(rl.node.loopSep)
+		if _, rl.err = rl.w.Write(rl.node.loopSep); rl.err != nil {
+			return inspector.LoopCtlBrk
+		}
 	}
 	rl.cntr++
 	var err error
